@@ -10,6 +10,8 @@ adds the weight of the granted request.
 
 variable {σ : Type}
 
+namespace Conserve
+
 /-- `Σ_{i<n} f i` -/
 def sumTo (f : Nat → Int) : Nat → Int
   | 0 => 0
@@ -160,3 +162,5 @@ theorem tot_noReq {W : Weight} (hW : W.Ok) (s : KState ℚ σ) (h : ∀ e, isReq
   intro a _
   unfold wt
   exact hW.nonReq _ _ _ (nonReqKind_of_notReq (h a))
+
+end Conserve
